@@ -37,10 +37,11 @@ L01(S) == {<<>>} \cup {<<x>> : x \in S}
 L012(S) == L01(S) \cup {<<x, y>> : x \in S, y \in S}
 
 EmitOn == "CGV_EMIT" \in DOMAIN IOEnv
+EmitK == IF "CGV_EMIT_K" \in DOMAIN IOEnv THEN atoi(IOEnv.CGV_EMIT_K) ELSE 1     \* emit a seeded 1/K sample
 Compact(s) == [n |-> {<<x, s.ty[x], s.out[x]>> : x \in s.nodes}, e |-> s.edges,
                b |-> {<<i, s.bbs[i].type, s.bbs[i].ins, s.bbs[i].outs>> : i \in DOMAIN s.bbs}]
 Do(r, call, rem) ==
-  /\ (EmitOn => PrintT(ToJson([pre |-> Compact(st), call |-> call, post |-> Compact(r.st), exc |-> r.exc, ret |-> r.ret])))
+  /\ ((EmitOn /\ (EmitK = 1 \/ RandomElement(1..EmitK) = 1)) => PrintT(ToJson([pre |-> Compact(st), call |-> call, post |-> Compact(r.st), exc |-> r.exc, ret |-> r.ret])))
   /\ st' = r.st
   /\ lastExc' = r.exc
   /\ last' = ToJson(call)
@@ -109,6 +110,16 @@ InitConn == /\ \E N \in {M \in SUBSET ConnNodes : Cardinality(M) <= 3} : st \in 
 NextConn == \/ ConnectAct(L012(st.nodes) \ {<<>>}, L012(st.nodes) \ {<<>>})
             \/ ConnectAct({<<"zz">>}, L01(st.nodes)) \/ ConnectAct(L01(st.nodes), {<<"zz">>})
 SpecConn == InitConn /\ [][NextConn]_vars
+
+(* add-focused transitions: every legal state over <= 2 of three names (<= 1 edge), every add() call with a new /
+   existing / digit-initial / dotted name, supported and unsupported types, fan-in and fan-out lists of length 0..2
+   over the present names and one absent name, uid on and off. *)
+AddNames == {"h", "a", "1n", "i.q"}
+AddTypes == {"buf", "and", "input", "bb_output", "bb_input", "foo", "0"}
+InitAdd == /\ \E N \in {M \in SUBSET {"a", "g", "i.q"} : Cardinality(M) <= 2} : st \in ConnStatesOver(N)
+           /\ removed = {} /\ last = "" /\ lastExc = ""
+NextAdd == AddAct(AddNames, AddTypes, L012(Here), L012(Here))
+SpecAdd == InitAdd /\ [][NextAdd]_vars
 
 Depth4 == TLCGet("level") <= 4
 Depth2 == TLCGet("level") <= 1
